@@ -454,6 +454,36 @@ func monitorC18(c *Ctx, id string, cs Case, e *Exec, final []string) {
 				c.hit(id, cs, "frame-"+s.Op, fmt.Sprintf("step %d: field %s changed from %s to %s", i, f, short(src[f]), short(dst[f])))
 			}
 		}
+		if s.Op == "FM" {
+			// the result's variable list is the one its printed form shows, and it
+			// encodes iff it is complete
+			if dm, ok := e.Pool[i].(*ast.DataMessage); ok {
+				txt := dm.String()
+				if j := strings.IndexByte(txt, '\n'); j >= 0 {
+					txt = txt[j:]
+				}
+				pv := printedVars(txt)
+				lv := dm.Variables()
+				disp := make([]string, len(lv))
+				stray := false
+				for k, v := range lv {
+					disp[k] = v
+					if strings.HasPrefix(v, "...") {
+						disp[k] = "..."
+					}
+					if v == "" {
+						stray = true
+					}
+				}
+				if !stray && strings.Join(pv, " ") != strings.Join(disp, " ") {
+					c.hit(id, cs, "filled-message-variables", fmt.Sprintf("step %d: Variables() %v but the printed form shows %v", i, disp, pv))
+				}
+				complete := len(pv) == 0 && dm.WaitBit() != "optional" && dm.SessionID() != -1
+				if !stray && complete != (len(dm.ToBytes()) > 0) {
+					c.hit(id, cs, "filled-message-encoding", fmt.Sprintf("step %d: complete=%v but %d bytes", i, complete, len(dm.ToBytes())))
+				}
+			}
+		}
 		if s.Op == "SW" && src["wbit"] != hx([]byte("optional")) && final[i] != final[s.Ref] {
 			c.hit(id, cs, "frame-SW-decided", fmt.Sprintf("step %d: wait bit was already decided but the message changed", i))
 		}
@@ -577,6 +607,17 @@ func (g *Gen) typedFill(steps []Step, vars []string, partial bool) []KV {
 			a = Arg{T: 'o'}
 		case strings.HasPrefix(v, "..."):
 			a = Arg{T: 'i', IK: KInt, I: int64(g.pick(3))}
+		case k != "A" && g.chance(0.1):
+			// a string renames the variable: to a new name, or to one the template already uses
+			g.count("c09:rename")
+			nm := g.freshName()
+			if len(vars) > 1 && g.chance(0.5) {
+				if o := vars[g.pick(len(vars))]; o != v && !strings.HasPrefix(o, "...") {
+					nm = []byte(o)
+				}
+			}
+			g.ownVars = true
+			a = Arg{T: 's', S: nm}
 		case k == "B":
 			a = Arg{T: 'i', IK: KInt, I: int64(g.pick(256))}
 		case k == "BOOLEAN":
@@ -600,10 +641,20 @@ func (g *Gen) typedFill(steps []Step, vars []string, partial bool) []KV {
 				a = Arg{T: 'r', Ref: g.add(Step{Op: "NU", W: 2, Args: []Arg{{T: 'i', IK: KInt, I: int64(g.pick(65536))}}})}
 			default:
 				inner := g.freshName()
+				reused := false
+				if len(vars) > 1 && g.chance(0.3) {
+					reused = true
+					// the value reuses a name that is already in the template: the result would hold it twice
+					inner = []byte(vars[g.pick(len(vars))])
+					if string(inner) == v || strings.HasPrefix(string(inner), "...") {
+						inner = g.freshName()
+						reused = false
+					}
+				}
 				g.count("c09:value-brings-variable")
 				g.ownVars = true
 				a = Arg{T: 'r', Ref: g.add(Step{Op: "NI", W: 1, Args: []Arg{{T: 'i', IK: KInt, I: 0}, {T: 's', S: inner}}})}
-				if g.chance(0.6) {
+				if !reused && g.chance(0.6) {
 					// the same map also has a key for the variable the value brings: it must be inserted as is
 					out = append(out, KV{inner, Arg{T: 'i', IK: KInt, I: int64(g.pick(100))}})
 				}
@@ -1032,7 +1083,7 @@ func suiteC16(c *Ctx) {
 				g.add(Step{Op: "FI", Ref: t, Map: g.typedFill(g.steps[:t+1], it.Variables(), true)})
 			}
 		}
-		c.emit(Case{"listing", g.steps, false})
+		c.emit(Case{"listing", g.steps, g.chance(0.35)})
 	}
 }
 
